@@ -6,6 +6,7 @@ open Lean Ohkami Ohkami.Sse Drv
 namespace DrvC17
 def runCase (j : Json) : Except String Json := do
   let c ← j.getObjVal? "case"
+  if (jopt c "timed").isSome then throw "unmodelled: scenarios in real time (the model has no clock)"
   let sched ← (← jarr c "sched").toList.mapM fun s => do
     let ps ← (← jarr s "pushes").toList.mapM fun p => do pure (fromHex (← p.getStr?))
     pure (⟨ps, ← jbool s "ready"⟩ : PStep)
